@@ -1782,6 +1782,11 @@ class ContentFile(File):
     classes = ContentFileClasses()
 
     def _calc_hash(self) -> str:
+        if not self.filesystem.exists(self.path):
+            # Like File, a missing path has a deterministic hash (of no content) instead of
+            # raising, so that a deleted file simply makes the value invalid.
+            return hash_struct([self.type_basename, self.path, -1])
+
         # Use filesystem.open() to avoid triggering a recursive hash update.
         with self.filesystem.open(self.path, mode="rb") as infile:
             content_hash = hash_stream(infile)
